@@ -34,7 +34,7 @@ ASSUMPTIONS = ["statistical clauses are judged at 7 sigma (two-sided 2.6e-12 per
 PROBES = ["first_noise_on_empty", "later_noise_reestimated", "zero_data_then_noise", "table_share_index", "table_independent",
           "shipped_table", "truncated_floor_checked", "moment_test_chi2", "moment_test_gaussian", "half_integer_resolution",
           "stream_quadrature", "array_background_quadrature", "signal_before_noise", "preloaded_frame",
-          "estimates_not_observed_after_op"]
+          "estimates_not_observed_after_op", "two_resolutions_in_one_process"]
 
 
 def generate(rng, tier):
@@ -70,6 +70,16 @@ def generate(rng, tier):
             ops.append({"op": "copy", "observe": rng.random() < 0.5})
         else:
             ops.append({"op": "snr", "s": rng.choice([1.0, 10.0, 30.0, 0.5, 1e3])})
+    for op in ops:
+        op["fr"] = rng.randrange(4)
+    frame2 = None
+    if not big and rng.random() < 0.45:
+        # a second frame of another resolution alive in the same process
+        prod2 = rng.choice([1.0, 2.0, 3.0, 7.0])
+        dt2 = rng.choice([1.0, 18.253611008, 0.5, 2.0, 5.0, 1.4316557653333333])
+        frame2 = {"route": "sizes", "geom": {"fchans": rng.choice([4, 8, 16]), "tchans": rng.choice([1, 2, 4]), "df": prod2 / dt2, "dt": dt2,
+                                              "fch1": 6e9, "ascending": rng.random() < 0.5},
+                  "seed": rng.randrange(1 << 30), "t_start": 0.0, "mjd": None, "source_name": None, "content_seed": rng.randrange(1 << 30)}
     streams = None
     if rng.random() < 0.5:
         n_ant = rng.choice([0, 0, 1, 2, 3])
@@ -80,7 +90,7 @@ def generate(rng, tier):
         streams = {"n_ant": n_ant, "pols": rng.choice([1, 2]), "ops": sops, "seed": rng.randrange(1 << 30)}
     return {"seams": {"clock_origin": 1.7e9, "clock_jitter_seed": rng.randrange(1 << 20), "entropy_salt": rng.randrange(1 << 20),
                       "scratch": "c11"},
-            "frame": spec, "ops": ops, "streams": streams, "big": big}
+            "frame": spec, "frame2": frame2, "ops": ops, "streams": streams, "big": big}
 
 
 def simplify(sc):
@@ -166,17 +176,26 @@ def execute(sc, ctx):
     k = 4 * round(prod)       # Python's round: half to even, as the statement's round()
     if spec["route"] != "sizes":
         ctx.hit("preloaded_frame")
+    geo = {id(fr): (g, k)}
     pool = [fr]
+    if sc.get("frame2"):
+        fr2, _ = F.build_frame(sc["frame2"], ctx)
+        g2 = sc["frame2"]["geom"]
+        pool.append(fr2)
+        geo[id(fr2)] = (g2, 4 * round(g2["df"] * g2["dt"]))
+        ctx.hit("two_resolutions_in_one_process")
     # Reading the estimates is itself an operation of the schedule (op["observe"]): a check that looked at them after
     # every step would hide state that is only wrong between two observations.  Emptiness is therefore tracked by the
     # model, not read from the frame.
-    model_empty = {id(fr): not np.any(fr.data)}
+    model_empty = {id(f): not np.any(f.data) for f in pool}
     nnoise = 0
     had_signal_only = False
     after_zero = False
     kinds = set()
+    g0, k0 = g, k
     for j, op in enumerate(sc["ops"]):
-        fr = pool[-1]
+        fr = pool[op.get("fr", len(pool) - 1) % len(pool)]
+        g, k = geo[id(fr)]
         kind = op["op"]
         ctx.op(kind)
         N = fr.data.size
@@ -185,7 +204,7 @@ def execute(sc, ctx):
         if not observe:
             ctx.hit("estimates_not_observed_after_op")
         data_before = np.array(fr.data, copy=True)
-        others = [np.array(f.data, copy=True) for f in pool[:-1]]
+        others = [np.array(f.data, copy=True) for f in pool]
         try:
             if kind in ("noise", "from_obs"):
                 x_mean = x_std = x_min = None
@@ -320,6 +339,7 @@ def execute(sc, ctx):
                     ctx.check(c.noise_mean == fr.noise_mean and c.noise_std == fr.noise_std, "copy", "C11/copy_differs", "")
                 pool.append(c)
                 model_empty[id(c)] = model_empty[id(fr)]
+                geo[id(c)] = geo[id(fr)]
             elif kind == "snr":
                 s = op["s"]
                 if fr.noise_std == 0:
@@ -341,7 +361,7 @@ def execute(sc, ctx):
             from ..worlds.raw import innermost_setigen_frame
             ctx.violation("op", "C11/%s/raises:%s@%s" % (kind, type(e).__name__, innermost_setigen_frame(e)), repr(e))
             return
-        for f, d in zip(pool[:-1], others):
+        for f, d in zip(pool, others):
             if f is not fr:
                 ctx.check(np.array_equal(f.data, d), "isolation", "C11/other_frame_changed", "")
         if ctx.violations and ctx.stop_on_violation:
@@ -352,8 +372,9 @@ def execute(sc, ctx):
     st = sc["streams"]
     if st is not None:
         _streams(ctx, st)
+    g, k = g0, k0
     ctx.sim_time += g["tchans"] * g["dt"]
-    ctx.fingerprint = [sc["big"], spec["route"], k if k < 12 else "12+", sorted(kinds), sorted({o["op"] for o in sc["ops"]}),
+    ctx.fingerprint = [sc["big"], spec["route"], bool(sc.get("frame2")), k if k < 12 else "12+", sorted(kinds), sorted({o["op"] for o in sc["ops"]}),
                        None if st is None else (st["n_ant"], st["pols"], len(st["ops"]))]
 
 
